@@ -205,6 +205,9 @@ pub fn worker_abs(w: &mut WorkerCtx) {
     let dump0_entries = mem.verif_dump().entries.len();
     for cwd in &cwds {
         std::env::set_current_dir(cwd).expect("chdir");
+        // $PWD names the working directory in a spelling that is not clean (what a shell leaves behind after
+        // `cd dir/.`): the cwd abs() joins onto is the process's, in clean form, whatever the environment says
+        std::env::set_var("PWD", format!("{}/.", cwd));
         mem.set_cwd(cwd).expect("set_cwd");
         let mut buf = String::new();
         for i in 0..n {
@@ -741,7 +744,32 @@ fn replay(ctx: &Ctx, p: &std::path::Path) -> i32 {
         let refs: Vec<AbsR> = acc.oks.iter().map(|o| ref_abs_expanded(cwd, o)).collect();
         println!("  reference: expansions {:?} (failure acceptable: {}) -> {:?}", acc.oks, acc.err_ok, refs);
         let ok = if o.ok { refs.iter().any(|r| matches!(r, AbsR::Ok(x) | AbsR::Climbs(x) if *x == o.val)) } else { acc.err_ok || arg.is_empty() || refs.iter().any(|r| matches!(r, AbsR::Err(_) | AbsR::Climbs(_))) };
-        if !ok {
+        // the real-filesystem backend from the same cwd (re-created when it was a sandbox directory), $PWD
+        // spelled the way the sweep spells it
+        let mut ok_std = true;
+        let top = cwd.strip_prefix("/dev/shm/").and_then(|r| r.split('/').next()).map(|t| format!("/dev/shm/{}", t));
+        let top_existed = top.as_ref().map(|t| std::path::Path::new(t).exists()).unwrap_or(true);
+        let made = cwd.starts_with("/dev/shm/") && std::fs::create_dir_all(cwd).is_ok();
+        if cwd == "/" || made || std::path::Path::new(cwd).is_dir() {
+            if std::env::set_current_dir(cwd).is_ok() {
+                std::env::set_var("PWD", format!("{}/.", cwd));
+                let od = apply(&Stdfs::new(), &Op::Abs(arg.to_string()));
+                println!("  Stdfs abs({:?}) with cwd {} -> {}", arg, cwd, od.brief());
+                ok_std = if od.ok { refs.iter().any(|r| matches!(r, AbsR::Ok(x) | AbsR::Climbs(x) if *x == od.val)) } else { acc.err_ok || arg.is_empty() || refs.iter().any(|r| matches!(r, AbsR::Err(_) | AbsR::Climbs(_))) };
+                if od.ok != o.ok || (od.ok && od.val != o.val) {
+                    println!("  the backends differ");
+                    ok_std = false;
+                }
+                let _ = std::env::set_current_dir("/");
+            }
+        }
+        if made && !top_existed {
+            // remove what was created for the replay
+            if let Some(t) = &top {
+                let _ = std::fs::remove_dir_all(t);
+            }
+        }
+        if !ok || !ok_std {
             println!("VIOLATION property={} replay={}", ctx.prop, p.display());
             return 1;
         }
